@@ -32,7 +32,7 @@ def _sig(t, bad, l):
         o = bad["obs"]
         sets = [e for e in t["ev"][:l - 1] if e["a"] == "set" and not e["obs"]["raised"]]
         wide = any(c > 255 for e in sets for c in (e["args"][1] + e["args"][2]["domain"] + e["args"][2]["path"] + e["args"][2]["samesite"]))
-        return {"what": "flush", "status": o["status"], "nlines": min(len(o["lines"]), 3), "njar_le_lines": len(sets) <= len(o["lines"]),
+        return {"what": "flush", "source": "tlc-program" if t["id"] < 100000 else "random-program", "status": o["status"], "nlines": min(len(o["lines"]), 3), "njar_le_lines": len(sets) <= len(o["lines"]),
                 "non_latin1_setting": wide, "apis": sorted({e["obs"]["api"] for e in sets})}
     return {"what": "set"}
 
@@ -40,35 +40,36 @@ def _sig(t, bad, l):
 def run(ctx):
     ctx.mc("websec", "Cookies", "MC_Cookies.cfg", required_actions=["SetValue", "SetAttrs", "Flush"],
            overrides=None)
-    ctx.mc("websec", "Cookies", "MC_Cookies_2.cfg", required_actions=["SetValue", "SetAttrs", "Flush"],
-           overrides=ctx.pick({"MaxOps": 2}, {}))
     if not ctx.quick:
+        ctx.mc("websec", "Cookies", "MC_Cookies_2.cfg", required_actions=["SetValue", "SetAttrs", "Flush"])
         from harness import websec_driver as W
         import os
         ctx.mc(W.SPEC_DIR, "Cookies", os.path.relpath(W.cfg_with(ctx, "MC_Cookies.cfg", {"ValueSet": "Values3"}), W.SPEC_DIR),
                required_actions=["SetValue", "Flush"])
-    paths = ctx.gen_paths("websec", "Gen_Cookies", "Gen_Cookies.cfg", timeout=ctx.pick(900, 1500))
+    import os
+    from harness import websec_driver as W
+    gcfg = W.cfg_with(ctx, "Gen_Cookies.cfg", ctx.pick({"NameSet": "NamesQ"}, {"ValueSet": "Values3"}))
+    paths = ctx.gen_paths(W.SPEC_DIR, "Gen_Cookies", os.path.relpath(gcfg, W.SPEC_DIR), timeout=ctx.pick(900, 1500))
     paths += ctx.gen_paths("websec", "Gen_Cookies", "Gen_Cookies_2.cfg", timeout=ctx.pick(900, 1500))
     progs = [p for e, p in paths if p and p[-1]["act"] == "flush"]
     t0 = time.time()
     traces = framework.pool_map(C.trace_of_path, [(i + 1, p) for i, p in enumerate(progs)])
     ctx._phase("run-programs", t0)
-    t0 = time.time()
-    ctx.validate("websec", "Trace_Cookies", "Trace_Cookies.cfg", traces, label="s2c", sig_fn=_sig)
-    ctx._phase("validate-programs", t0)
     ctx.cov["exhaustive"] = True
-    n = ctx.pick(400, 8000)
+    n = ctx.pick(300, 8000)
     t0 = time.time()
     rnd = framework.pool_map(C.random_program, [(100000 + i, ctx.seed * 1000003 + i, 1 + i % 4) for i in range(n)])
     ctx._phase("run-random", t0)
     t0 = time.time()
-    ctx.validate("websec", "Trace_Cookies", "Trace_Cookies.cfg", rnd, label="c2s", sig_fn=_sig)
-    ctx._phase("validate-random", t0)
+    # one validation batch for the TLC-enumerated programs (ids < 100000) and the random ones
+    ctx.validate("websec", "Trace_Cookies", "Trace_Cookies.cfg", traces + rnd, label="trace", sig_fn=_sig,
+                 shards=ctx.pick(6, None))
+    ctx._phase("validate", t0)
     ctx.cov["rule"] = ("program = sequence of set_cookie calls + flush enumerated by TLC (all names x values / attribute "
                        "strings up to length 2-3 over the class alphabet; all pairs of calls over a small set), plus seeded "
                        "random programs over three APIs; distinct = distinct call sequences")
     ctx.cov["trusted_base"] += ["harness/httpsim.py request/response plumbing", "Set-Cookie header extraction (split on first ';')"]
-    ctx.assumptions += ["expires values are opaque (presence only); max_age=0 and deprecated **kwargs are not generated",
+    ctx.assumptions += ["expires values are opaque (presence only; expires_days in {unset, 0, 1, 30} must yield an expires attribute); max_age=0 may yield Max-Age=0 or nothing (disputed); deprecated **kwargs are not generated",
                         "a client strips only SP / HTAB around attribute names and values"]
 
 
